@@ -24,6 +24,9 @@ BYSTANDERS = {
     b"data": ("f", 0o644, b"payload"), b"envy": ("f", 0o600, b"not an env dir"),
     b"env.txt": ("f", 0o644, b"t"), b"env.launchx": ("d", 0o750), b"env.launchx/K.override": ("f", 0o644, b"no"),
     b"lib": ("d", 0o755),
+    # what a killed earlier run of some tool may have left next to the env directories: scratch directories with env-like files
+    b".env.tmp": ("d", 0o755), b".env.tmp/STALE.override": ("f", 0o644, b"stale"), b".env.build.tmp": ("d", 0o755), b".env.build.tmp/STALE.append": ("f", 0o644, b"stale"),
+    b".env.launch.tmp": ("d", 0o755), b".env.launch.tmp/STALE.default": ("f", 0o644, b"stale"), b"env.tmp": ("d", 0o755), b"env.tmp/STALE.override": ("f", 0o644, b"stale"),
 }
 QSCOPES = ["all", "build", "launch", "process:web", "process:worker.1", "process:a_b", "process:unknown"]
 
@@ -223,7 +226,12 @@ def gen_read_dir(r, d):
         dirs = [root]
         if root == b"env.launch":
             for p in r.sample(PROCS, r.randint(0, 3)):
-                os.mkdir(os.path.join(d, root, p.encode()))
+                if r.random() < 0.25:
+                    # the process directory is a symbolic link to a directory (kept elsewhere in the layer): a directory like any other
+                    os.mkdir(os.path.join(d, b"procdata-" + p.encode()))
+                    os.symlink(os.path.join(b"..", b"procdata-" + p.encode()), os.path.join(d, root, p.encode()))
+                else:
+                    os.mkdir(os.path.join(d, root, p.encode()))
                 dirs.append(root + b"/" + p.encode())
         else:
             if r.random() < 0.3:
